@@ -359,8 +359,18 @@ class ModuleNormaliser:
         for st in self.tree.body:
             if isinstance(st, ast.Assign) and len(st.targets) == 1 and isinstance(st.targets[0], ast.Name):
                 assigned.setdefault(st.targets[0].id, []).append(st)
+        # names that some function mutates (subscript store / mutator call / global rebinding) are state, not constants
+        MUT = {"append", "extend", "insert", "pop", "remove", "clear", "update", "setdefault", "popitem", "add", "discard", "sort", "reverse"}
+        mutated = set()
+        for n in ast.walk(self.tree):
+            if isinstance(n, (ast.Subscript, ast.Attribute)) and isinstance(n.ctx, (ast.Store, ast.Del)) and isinstance(n.value, ast.Name):
+                mutated.add(n.value.id)
+            if isinstance(n, ast.Call) and isinstance(n.func, ast.Attribute) and n.func.attr in MUT and isinstance(n.func.value, ast.Name):
+                mutated.add(n.func.value.id)
+            if isinstance(n, ast.Global):
+                mutated |= set(n.names)
         for name, sts in assigned.items():
-            if name in known or len(sts) != 1:
+            if name in known or len(sts) != 1 or name in mutated:
                 continue
             v = sts[0].value
             if isinstance(v, ast.Call) and isinstance(v.func, ast.Attribute) and isinstance(v.func.value, ast.Name) and v.func.value.id == "re" \
@@ -1078,8 +1088,9 @@ def split_parallel_assignments(tree):
 
     def reads(value, target):
         t = " ".join(ast.unparse(_loadify(target)).split())
+        inner = {id(n.value) for n in ast.walk(value) if isinstance(n, (ast.Attribute, ast.Subscript))}
         for n in ast.walk(value):
-            if isinstance(n, (ast.Name, ast.Attribute, ast.Subscript)):
+            if isinstance(n, (ast.Name, ast.Attribute, ast.Subscript)) and id(n) not in inner:      # maximal access paths only
                 k = " ".join(ast.unparse(n).split())
                 if k == t or k.startswith(t + ".") or k.startswith(t + "[") or t.startswith(k + ".") or t.startswith(k + "["):
                     return True
@@ -1089,6 +1100,16 @@ def split_parallel_assignments(tree):
         nonlocal count
         out = []
         for st in stmts:
+            if isinstance(st, ast.Assign) and len(st.targets) > 1 and is_pure(st.value) and all(isinstance(t, (ast.Name, ast.Attribute)) for t in st.targets) \
+                    and not any(reads(st.value, t) for t in st.targets):
+                # chained assignment of a pure value: a = b = v  ->  a = v; b = v
+                for t in st.targets:
+                    a = ast.Assign(targets=[t], value=clone(st.value))
+                    ast.copy_location(a, st)
+                    ast.fix_missing_locations(a)
+                    out.append(a)
+                count += 1
+                continue
             if isinstance(st, ast.Assign) and len(st.targets) == 1 and isinstance(st.targets[0], (ast.Tuple, ast.List)) and isinstance(st.value, (ast.Tuple, ast.List)) \
                     and len(st.targets[0].elts) == len(st.value.elts) and not any(isinstance(e, ast.Starred) for e in list(st.targets[0].elts) + list(st.value.elts)) \
                     and all(isinstance(t, (ast.Name, ast.Attribute, ast.Subscript)) for t in st.targets[0].elts):
